@@ -14,7 +14,7 @@ KINDS = {
     "C20": ["MembersLostOnRestart", "RemovedStillListed", "MemberMissing", "AddressWrong", "JoinFailed", "RestartFailed", "NodeDied",
             "SearchUnavailable", "PeerUnreachable"],      # every node up, a search through some node fails: a peer hosting a partition is not reached
 }
-SCENARIOS = ["basic", "wiring", "snapshot", "leave", "lagging", "lagging-leave", "joinfail", "lagging-replicas", "joincrash", "rejoin", "leave-boot", "lagging-empty", "dead-leave"]
+SCENARIOS = ["basic", "wiring", "snapshot", "leave", "lagging", "lagging-leave", "joinfail", "lagging-replicas", "joincrash", "rejoin", "leave-boot", "lagging-empty", "dead-leave", "lagging-rejoin"]
 
 
 def run_scenarios(ctx, repeat, scenarios=None):
@@ -113,8 +113,11 @@ def run_family(ctx):
         r = ctx.tlc("Membership", "Membership_mc.cfg", timeout=900)
         if r.violated:
             raise vlib.NoVerdict("Membership violates %s in the repaired switch positions" % r.violated)
-        for sw in ("SnapshotHasBook", "BootHasAddr", "ForgetClientOnRemove"):
-            rr = ctx.tlc("Membership", ctx.cfg("Membership_mc.cfg", {sw: "FALSE"}), timeout=600, name="Membership-" + sw, count=False)
+        for sw in ("SnapshotHasBook", "BootHasAddr", "ForgetClientOnRemove", "AddOverwrites", "ClientPerCall"):
+            over = {sw: "FALSE"}
+            if sw == "ForgetClientOnRemove":
+                over["ClientPerCall"] = "FALSE"     # the cached client is what has to be forgotten
+            rr = ctx.tlc("Membership", ctx.cfg("Membership_mc.cfg", over), timeout=600, name="Membership-" + sw, count=False)
             ctx.cov["binding_selftest"]["switch_%s_FALSE_gives_counterexample" % sw] = rr.violated
             if not rr.violated:
                 raise vlib.NoVerdict("vacuity guard failed for %s" % sw)
